@@ -208,13 +208,13 @@ class ModelEngine(Engine):
         elif what == 'box':
             V = geom.draw_tri_cell(r, 1.0)
             if r.random() < 0.3:
-                V = V @ geom.random_rotation(r).T
+                V = geom.snap_small(V @ geom.random_rotation(r).T)
             op.update(V=(V * 1e-10), origin=(geom.draw_origin(r, float(np.abs(V).max())) * 1e-10), unit=self._gen_units(ctx, 'length', allow_none=False))
         elif what in ('atoms', 'system'):
             n = r.choice([1, 1, 2, 3, 5, 8, 13, 30])
             V = geom.draw_tri_cell(r, 1.0) * r.uniform(1.5, 4)
             if what == 'system' and r.random() < 0.25:
-                V = V @ geom.random_rotation(r).T
+                V = geom.snap_small(V @ geom.random_rotation(r).T)
             o = geom.draw_origin(r, float(np.abs(V).max()))
             ntypes = r.randint(1, 4)
             atype = [r.randint(1, ntypes) for _ in range(n)]
